@@ -32,9 +32,12 @@ def history(draw, kinds=("post_fifo", "post_lifo", "next_rtc", "complete_circuit
   case = {"spec": spec, "start": start, "ops": ops}
   if pre:
     # operations made before the chart is started (posting/deferring to a not yet started chart)
-    pk = [k for k in ("post_fifo", "post_lifo", "defer") if k in kinds]
+    pk = [k for k in ("post_fifo", "post_lifo", "defer", "recall") if k in kinds]
     case["pre_ops"] = [[draw(st.sampled_from(pk)), draw(st.sampled_from(spec["sigs"]))]
                        for _ in range(draw(st.integers(0, 3)))] if pk else []
+    case["pre_ops"] = [[o[0]] if o[0] == "recall" else o for o in case["pre_ops"]]
+    # live output switched on (to harness callbacks): it must not get in the way of the queues
+    case["live"] = draw(st.sampled_from([None, None, None, "spy", "trace", "both"]))
   if bulk and draw(st.integers(0, 7)) == 0:
     # long circuits: hundreds of queued events whose handlers post follow-ups
     case["budget"] = draw(st.sampled_from([280, 400, 700]))
